@@ -89,6 +89,11 @@ CHECKS = {
   technique="runtime monitoring, frame-rule checker over the debugger-snapshot event log: the whole variable pool is read before every executed statement and the set of entries that changed across a statement is compared with the write set the statement names (no reference semantics involved)",
   text="Typed programs with unary minus and compound assignment on variables, values copied between variables and headers, and helper subroutines that mutate their by-value parameters, their own locals and run their own regex matches are executed; across set/unset/log/if/switch/call statements only the named target (plus re.group.* when a regex is evaluated, plus headers across a call) may change; caller locals and caller capture groups must survive a call; canaries (req.url, req.method, an untouched header) must never change.",
   note="Only the driven subroutine's frame is judged (callee-internal transitions are covered through what the caller observes). Reading the pool through ProcessExpression is assumed side-effect free."),
+ "C04": dict(
+  category="exploration", design_ref="DESIGN.md §4 C04",
+  technique="runtime monitoring of the real `falco lint` binary: inputs whose verdict is known by construction (injected diagnostics of known rule and severity, syntax breakers, .falco.yml overrides, ignore comments, included modules, snippets) are run in all six {plain,-json} x {none,-v,-vv} flag combinations; monitors compare exit status with the constructed verdict, counts with the constructed multiset, and the six runs with each other",
+  text="A lint-clean skeleton is injected with k_E/k_W/k_I diagnostics from an empirically verified catalogue (22 ERROR, 7 WARNING, 2 INFO named rules, plus unnamed ones) in the main file, an included module, nested blocks and snippets with/without @scope; 15 token-level syntax breakers; severity overrides up/down/ignore/partial/invalid; ignore comments covering all or some errors. Exit status != 0 iff syntax error or >=1 effective ERROR; error/warning/info counts equal the construction and are identical across the six modes; -json stdout is exactly one JSON document.",
+  note="The construction is cross-checked against the in-process linter; a mismatch is inconclusive, not a violation. Under a syntax error only the exit status is judged (plain mode prints no counts)."),
 }
 
 NOT_APPLICABLE = {}
